@@ -29,7 +29,7 @@ CORE_ALLOWED = ("optional_zero", "str_with_squote",
 # shapes of open findings: excluded from the core by construction, each probed by its own frontier budget
 FRONTIER_KNOBS = irprops.frontier_knobs((
     "untyped_param", "undocumented_param", "default_without_prose", "bare_param", "str_with_space",
-    "empty_str", "str_with_quote", "kwargs_sole_default_bare",
+    "empty_str", "str_with_quote", "kwargs_sole_default_bare", "code_default_strtype",
     "nodefault_after_default", "returns", "returns_default", "returns_untyped",
     "returns_undocumented", "returns_only", "multiline_prose", "foreign_tokens", "foreign_tokens_strong",
 ))
